@@ -406,7 +406,10 @@ pub struct ReservePlan {
 pub fn reserve_template(rng: &mut Prng, n_eoa: usize, base: usize, pre_state: &mut Vec<AccountSpec>) -> ReservePlan {
     let w = contract(base); // spender code run in the delegated account's context
     let sink = eoa((n_eoa - 1).max(0));
-    let kind = rng.below(13);
+    let delegated = rng.below(n_eoa.max(2) as u64 - 1) as usize;
+    // a second delegated account B (chain A -> B -> sink inside one transaction), when there is room
+    let second: Option<usize> = (n_eoa >= 3).then(|| (0..n_eoa - 1).find(|i| *i != delegated).unwrap());
+    let kind = if second.is_some() && rng.chance(1, 5) { 13 } else { rng.below(13) };
     let refunder = contract(base + 3); // sends whatever it receives straight back to its caller
     let donor = contract(base + 4); // pre-funded: pays calldata word 1 to its caller
     let call_v = |to: Expr, value: Expr| Stmt::Call { kind: CallKind::Call, to, value, arg0: imm(0), arg1: imm(0), gas: 80_000 };
@@ -427,6 +430,9 @@ pub fn reserve_template(rng: &mut Prng, n_eoa: usize, base: usize, pre_state: &m
         }
         // SELFDESTRUCT naming the account itself as heir moves nothing out of it (post-Cancun, not created
         // in this transaction); with and without an earlier real debit
+        // pays another DELEGATED account, whose own delegate code forwards what it received: two
+        // delegated accounts debited in one transaction, the second one credited before its first debit
+        13 => vec![call_v(addr_expr(eoa(second.unwrap())), Expr::CallData(1)), Stmt::Mix(Expr::SelfBalance)],
         11 => vec![Stmt::Mix(Expr::SelfBalance), Stmt::SelfDestruct(Expr::This)],
         12 => vec![call_v(addr_expr(sink), Expr::CallData(1)), Stmt::SelfDestruct(Expr::This)],
         0 => vec![Stmt::Call { kind: CallKind::Call, to: addr_expr(sink), value: Expr::CallData(1), arg0: imm(0), arg1: imm(0), gas: 60_000 }, Stmt::Mix(Expr::SelfBalance)],
@@ -451,7 +457,6 @@ pub fn reserve_template(rng: &mut Prng, n_eoa: usize, base: usize, pre_state: &m
     pre_state.push(contract_account(refunder, &[Stmt::Call { kind: CallKind::Call, to: Expr::Caller, value: Expr::CallValue, arg0: imm(0), arg1: imm(0), gas: 40_000 }], &[], 0));
     pre_state.push(contract_account(donor, &[Stmt::Call { kind: CallKind::Call, to: Expr::Caller, value: Expr::CallData(1), arg0: imm(0), arg1: imm(0), gas: 40_000 }], &[], 1_000_000_000));
 
-    let delegated = rng.below(n_eoa.max(2) as u64 - 1) as usize;
     let a = eoa(delegated);
     // later own transactions of the delegated account: known maximum cost each
     let own = rng.range(0, 3) as usize;
@@ -481,11 +486,28 @@ pub fn reserve_template(rng: &mut Prng, n_eoa: usize, base: usize, pre_state: &m
     }
     let s = |rng: &mut Prng| {
         let mut i = rng.below(n_eoa as u64) as usize;
-        if i == delegated {
-            i = (i + 1) % n_eoa;
+        if i == delegated || (kind == 13 && Some(i) == second) {
+            i = n_eoa - 1;
         }
         i
     };
+    if kind == 13 {
+        // B: delegated to a forwarder, poor (below / at / above the cost of its own later transaction)
+        let b = second.unwrap();
+        let fwd = contract(base + 5);
+        pre_state.push(contract_account(fwd, &[call_v(addr_expr(sink), if rng.chance(1, 2) { Expr::CallValue } else { Expr::CallData(1) }), Stmt::Mix(Expr::SelfBalance)], &[], 0));
+        let b_cost = gas_limit as u128 * max_fee + 1_000;
+        let b_balance = match rng.below(4) {
+            0 => b_cost / 2,
+            1 => b_cost - 1,
+            2 => b_cost,
+            _ => b_cost + fee_scale as u128,
+        };
+        if let Some(acc) = pre_state.iter_mut().find(|x| x.address == eoa(b)) {
+            acc.code = Bytes::from(evmasm::delegation_code(fwd));
+            acc.balance = U256::from(b_balance);
+        }
+    }
     let amounts = [0u64, 1, slack, slack + 1, slack.saturating_sub(1), 499, 10_001, fee_scale / 2, fee_scale, fee_scale + 1_000_000, own_value];
     let mut intents = Vec::new();
     let n_calls = rng.range(1, 3) as usize;
@@ -541,6 +563,12 @@ pub fn reserve_template(rng: &mut Prng, n_eoa: usize, base: usize, pre_state: &m
             Intent { sender: delegated, to: Some(sink), value: U256::from(own_value), data: Bytes::new(), gas_limit, auths: vec![], label: "own-tx-of-delegated" }
         };
         intents.insert(at.max(1).min(intents.len()), intent);
+    }
+    if kind == 13 {
+        // B's own later transaction (its maximum cost is what the reserve protects)
+        let b = second.unwrap();
+        let at = rng.range(1, intents.len() as u64) as usize;
+        intents.insert(at.min(intents.len()), Intent { sender: b, to: Some(sink), value: U256::from(1_000u64), data: Bytes::new(), gas_limit, auths: vec![], label: "own-tx-of-delegated" });
     }
     ReservePlan { intents, delegated }
 }
